@@ -205,18 +205,20 @@ def explain_marker(pos):
     return marker_story(pos)[1]
 
 
-def window_story(off, snippet, after):
+def window_story(off, snippet, after, wide=False):
     """A file: filler (off bytes of comment text), the tag line, more filler; optionally a snippet
-    marker somewhere after.  off is concretised by branching (bytes objects are C-level)."""
+    marker somewhere after.  off is concretised by branching (bytes objects are C-level).
+    wide: the filler holds two-byte characters, so byte offsets and character offsets differ."""
     k = None
     for v in range(4096 - 60, 4096 + 8):
         if off == v:
             k = v
     if k is None:
         k = 0
-    filler = ("# " + "x" * 61 + "\n") * (k // 64) + "#" * (k % 64 - 1) + ("\n" if k % 64 else "")
+    row = ("# " + "é" * 30 + "x\n") if wide else ("# " + "x" * 61 + "\n")  # 64 bytes either way
+    filler = row * (k // 64) + "#" * (k % 64 - 1) + ("\n" if k % 64 else "")
     if k % 64 == 0:
-        filler = ("# " + "x" * 61 + "\n") * (k // 64)
+        filler = row * (k // 64)
     body = filler + TAGLINE + "# tail\n" * 3
     if snippet:
         body += "# SPDX-SnippetBegin\n" if after else ""
@@ -251,25 +253,27 @@ class _Rel:
         return self.s
 
 
-def _win(off: int, snippet: bool, after: bool) -> bool:
+def _win(off: int, snippet: bool, after: bool, wide: bool) -> bool:
     """
     pre: 4096 - 60 <= off < 4096 + 8
     post: _
     """
-    ok, d = window_story(off, snippet, after)
+    ok, d = window_story(off, snippet, after, True if wide else False)
     return ok or ("tag-straddles-4KiB" in CARVE and d["offset_of_tag"] < 4096 < d["tag_end"])
 
 
-def _win_reach(off: int, snippet: bool, after: bool) -> bool:
+def _win_reach(off: int, snippet: bool, after: bool, wide: bool) -> bool:
     """
     pre: 4096 - 60 <= off < 4096 + 8
     post: False
     """
-    return window_story(off, snippet, after)[0]
+    return window_story(off, snippet, after, True if wide else False)[0]
 
 
-def explain_win(off, snippet, after):
-    return window_story(off, snippet, after)[1]
+def explain_win(off, snippet, after, wide):
+    d = window_story(off, snippet, after, bool(wide))[1]
+    d["two_byte_filler"] = bool(wide)
+    return d
 
 
 EXPLAIN = {"_tag": explain_tag, "_win": explain_win, "_marker": explain_marker}
